@@ -3,7 +3,7 @@
    with a real SQLite pin store are recorded - action, what the client call returned, the known_hosts table afterwards,
    which peers received request bytes - and must be behaviours of Tofu; every invariant is evaluated at every step.
      trace = [presents: [a,b,c], tofuOn, steps: << [act: <<name, args...>>, pins: [a,b,c], ok, err, h, got: <<hp...>>], ... >>]
-   Host:port pairs are the three constants of MC_Tofu, passed as record fields a / b / c.                         *)
+   Host:port pairs are the four constants of MC_Tofu, passed as record fields a / b / c / d.                         *)
 EXTENDS Tofu, Json, IOUtils, TLCExt
 Traces == JsonDeserialize(IOEnv.TRACE_FILE)
 VARIABLES tid, l
@@ -13,7 +13,8 @@ Ev == Steps_[l]
 HA == "app_1.ex:1965"
 HB == "app-1.ex:1965"
 HC == "app_1.ex:1966"
-OfRec(r) == [h \in HP |-> IF h = HA THEN r.a ELSE IF h = HB THEN r.b ELSE r.c]
+HD == "app_1.ex.:1965"        \* the fully qualified spelling (trailing dot): a key of its own in the pin store
+OfRec(r) == [h \in HP |-> IF h = HA THEN r.a ELSE IF h = HB THEN r.b ELSE IF h = HC THEN r.c ELSE r.d]
 ToSet(seq) == {seq[i] : i \in 1..Len(seq)}
 TInit == /\ tid \in 1..Len(Traces) /\ l = 1
          /\ pins = [h \in HP |-> None] /\ presents = OfRec(Traces[tid].presents) /\ tofuOn = Traces[tid].tofuOn
